@@ -277,7 +277,7 @@ func fmtOff(p *int64) interface{} {
 	return *p
 }
 
-// c17Lengths: every codec, every input length 0..size+2 (AbsCaptureTime 0..18), contents from
+// c17Lengths: every codec, every input length 0..size+2 (AbsCaptureTime 0..18) and 13 lengths far beyond (2-3 times the size, 23..33, 64, 255, 256, 1000), contents from
 // three patterns, every prior receiver state.
 func c17Lengths(c *mc.Ctx) {
 	codec := c.Pick(5)
@@ -286,7 +286,17 @@ func c17Lengths(c *mc.Ctx) {
 	if codec == 4 {
 		maxLen = 18
 	}
-	n := c.Pick(maxLen+2) - 1 // -1: nil
+	// every length up to a little beyond the size, then lengths far beyond it ("ignoring
+	// trailing bytes" has no upper end): multiples of the size, of 8, and large ones
+	far := []int{2*size - 1, 2 * size, 2*size + 1, 3 * size, 23, 24, 25, 32, 33, 64, 255, 256, 1000}
+	k := c.Pick(maxLen + 2 + len(far))
+	n := k - 1 // -1: nil
+	if k >= maxLen+2 {
+		n = far[k-maxLen-2]
+		if n <= maxLen {
+			n = maxLen + 1 + n
+		}
+	}
 	pat := c.Pick(3)
 	prior := c.Pick(5) // 0 fresh, 1-2 fixed other content, 3-4 the current input with its first / last byte inverted
 	var in []byte
